@@ -21,6 +21,8 @@ package baggage
 //   lastwins <gen> <xa> <xb>     => result(a) result(b) result(a,b)
 //   roundtrip <gen> <mlist>      => result(New) <result of Parse(String()) | ->
 //   setdel <gen> <mlist> | <op>... => <bag at creation>... | <bag at the end>...     op: s:<recv>:<mspec> | d:<recv>:<xkey>
+//   prop <gen> <pspec>           => <ok|err> <x Key()> <Value() ok 0|1> <x Value()> <x String()> <parsePropertyInternal(String()): ok:<oprop> | err | - (String() empty)>
+//   pparse <gen> <xs>            => ok:<oprop> | err          (parsePropertyInternal on an arbitrary string)
 //   lookup <gen> <mlist> | <xkey>... => result(New) <Len()> <len(Members())> | (<Member(key): member obs or - for the zero Member> <result of New(Member(key))>)...
 //   alias <gen> <ptable> | <step>... => (<all earlier values unchanged 0|1> <dump of the value the step created | ->)...
 //         ptable: - | <pspec>+<pspec>...  : ONE shared []Property table (len == cap); a second shared table of 8 Members starts zeroed.
@@ -352,6 +354,89 @@ func (e vC11Em) setdel(gen string, ms []vC11Mem, ops []string) {
 		}
 	}
 	e.out.Line("%s => %s | %s", in, strings.Join(created, " "), strings.Join(final, " "))
+}
+
+func vC11PropObs(p Property) string {
+	v, has := p.Value()
+	h := "0"
+	if has {
+		h = "1"
+	}
+	return vHex(p.Key()) + "." + h + "." + vHex(v)
+}
+
+// prop: the property API end to end: constructor, Key(), Value(), String(), and the parser on String()
+func (e vC11Em) prop(gen string, ps vC11Prop) {
+	var p Property
+	var err error
+	switch ps.kind {
+	case 'k':
+		p, err = NewKeyProperty(ps.key)
+	case 'r':
+		p, err = NewKeyValuePropertyRaw(ps.key, ps.val)
+	default:
+		ps.kind = 'e'
+		p, err = NewKeyValueProperty(ps.key, ps.val)
+	}
+	st := "ok"
+	if err != nil {
+		st = "err"
+	}
+	v, has := p.Value()
+	h := "0"
+	if has {
+		h = "1"
+	}
+	str := p.String()
+	re := "-"
+	if str != "" {
+		if q, ok := parsePropertyInternal(str); ok {
+			re = "ok:" + vC11PropObs(q)
+		} else {
+			re = "err"
+		}
+	}
+	e.out.Line("prop %s %s => %s %s %s %s %s %s", gen, ps.spec(), st, vHex(p.Key()), h, vHex(v), vHex(str), re)
+}
+
+func (e vC11Em) pparse(gen, s string) {
+	o := "err"
+	if q, ok := parsePropertyInternal(s); ok {
+		o = "ok:" + vC11PropObs(q)
+	}
+	e.out.Line("pparse %s %s => %s", gen, vHex(s), o)
+}
+
+// property strings around the grammar: OWS (space, tab) and what is NOT OWS for the property scanner (unicode spaces, CR/LF/VT/FF)
+// around key, "=" and value; several "="; empty keys; leftovers after the value
+var vC11PWs = []string{"", "", " ", "\t", "  ", " \t", "\u00a0", "\u2003", "\n", "\r", "\v", "\f", "\u0085"}
+var vC11PVal = []string{"", "v", "1", "a=b", "=", "==", "%41", "%2C%3b", "%", "%4", "%zz", "%FF", "%e2%82%ac", "a b", "a,b", "a;b", "\"q\"", "\\", "\u00e9", "x%20y", "~!#$&'()*+-./:<>?@[]^_`{|}"}
+
+func vC11PropStr(r *vRand) string {
+	ws := func() string {
+		if r.Intn(3) == 0 {
+			return vPick(r, vC11PWs)
+		}
+		return vPick(r, vC11PWs[:6])
+	}
+	key := vC11Key(r, vC11PropKeys, vC11BadKeys)
+	s := ws() + key + ws()
+	switch r.Intn(6) {
+	case 0: // key only
+	case 1:
+		s += "=" + ws()
+	default:
+		s += "=" + ws() + vPick(r, vC11PVal) + ws()
+	}
+	switch r.Intn(12) {
+	case 0:
+		s = vC11Mutate(r, s)
+	case 1:
+		s += vPick(r, []string{"x", "=", ";", " y", "\t=", ","})
+	case 2:
+		s = "=" + s
+	}
+	return s
 }
 
 // lookup: Member(key) / Members() / Len() on the same value, and the looked-up member handed back to New
@@ -1063,6 +1148,10 @@ func TestVerifC11Core(t *testing.T) {
 				e.roundtrip(f[1], vC11ParseMems(f[2]))
 			case "setdel":
 				e.setdel(f[1], vC11ParseMems(f[2]), f[4:])
+			case "prop":
+				e.prop(f[1], vC11PropOfSpec(f[2]))
+			case "pparse":
+				e.pparse(f[1], vUnhex(f[2]))
 			case "lookup":
 				keys := []string{}
 				for _, k := range f[4:] {
@@ -1112,6 +1201,19 @@ func TestVerifC11Core(t *testing.T) {
 			}
 		}
 		rec(nil, 0)
+		// all property strings of length <= 5 over a 10-byte alphabet
+		palpha := []byte{' ', '\t', 'p', '=', '%', '4', '1', ';', 0xc2, 0xa0}
+		var rec3 func(prefix []byte, depth int)
+		rec3 = func(prefix []byte, depth int) {
+			e.pparse("exh", string(prefix))
+			if depth == 5 {
+				return
+			}
+			for _, b := range palpha {
+				rec3(append(append([]byte{}, prefix...), b), depth+1)
+			}
+		}
+		rec3(nil, 0)
 		// all strings of length <= 3 over the trim alphabet
 		talpha := []byte{' ', '\n', 'a', 0xc2, 0x85, 0xa0, 0xe2, 0x80, 0xe3, 0xff}
 		var rec2 func(prefix []byte, depth int)
@@ -1222,6 +1324,10 @@ func TestVerifC11Core(t *testing.T) {
 		case x < 72:
 			pt, steps := vC11AliasGen(r)
 			e.alias("rnd", pt, steps)
+		case x < 74:
+			e.prop("rnd", vC11PropGen(r))
+		case x < 78:
+			e.pparse("rnd", vC11PropStr(r))
 		default:
 			switch y := r.Intn(40); {
 			case y < 2:
@@ -1238,6 +1344,19 @@ func TestVerifC11Core(t *testing.T) {
 			case y < 31:
 				h := vC11Header(r)
 				e.parse("emptyprop", strings.Replace(h, ";", vPick(r, []string{";;", "; ;", ";\t;"}), 1))
+			case y < 35:
+				// list-members with grammar-edge properties: OWS / non-OWS whitespace around ; and =, several =, empty keys, trailing ;
+				h := vPick(r, vC11PWs) + vPick(r, vC11Keys) + vPick(r, vC11PWs) + "=" + vPick(r, vC11PWs) + vPick(r, vC11PVal) + vPick(r, vC11PWs)
+				for j := r.Intn(4); j > 0; j-- {
+					h += ";" + vC11PropStr(r)
+				}
+				if r.Intn(4) == 0 {
+					h += ";"
+				}
+				if r.Intn(4) == 0 {
+					h += "," + vC11Header(r)
+				}
+				e.parse("props", h)
 			default:
 				e.parse("rnd", vC11RndHeader(r))
 			}
